@@ -94,7 +94,14 @@ SHAPES = [
     ("f(f(a))", "nested"), ("f(a) + f(b)", "sum"), ("[1, 2].map(v, f(v))", "map"),
     ("f(a) || true", "or-true"), ("false && f(a)", "and-false"), ("t ? f(a) : f(b)", "cond"),
     ("f(a) || false", "or-false"),
+    # a host call inside the range of every macro (evaluated exactly once), also nested in another macro
+    ("[f(a)].map(v, v)", "range-map"), ("[f(a)].filter(v, true)", "range-filter"), ("[f(a)].all(v, v > 0)", "range-all"),
+    ("[f(a)].exists(v, v > 0)", "range-exists"), ("[f(a)].exists_one(v, v > 0)", "range-exists_one"),
+    ("[2, 3].map(k, [f(k)].filter(x, x > 0))", "range-filter-nested"), ("[2, 3].map(k, [k.f()].map(x, x))", "range-map-nested"),
+    # a variable (binding or macro variable) that merely shares the function's name: calls still reach the function
+    ("f(a) + f", "var-call"), ("a.f() + f", "var-meth"), ("[1, 2].map(f, f(f))", "macro-var-call"), ("[1, 2].map(f, f.f())", "macro-var-meth"),
 ]
+EXTRA_BINDINGS = {"var-call": {"f": 7}, "var-meth": {"f": 7}}
 
 
 def expected(shape, behaviour):
@@ -129,15 +136,31 @@ def expected(shape, behaviour):
         return ("bool", False), [((1,), 0, 1)]
     if shape == "cond":
         return (("int", val(1)) if ok else "E"), [((1,), 1, 1), ((2,), 0, 0)]
+    if shape in ("range-map", "range-filter"):
+        return (("list", (("int", val(1)),)) if ok else "E"), [((1,), 1, 1)]
+    if shape in ("range-all", "range-exists", "range-exists_one"):
+        return (("bool", True) if ok else "E"), [((1,), 1, 1)]
+    if shape in ("range-filter-nested", "range-map-nested"):
+        if ok:
+            return ("list", (("list", (("int", val(2)),)), ("list", (("int", val(3)),)))), [((2,), 1, 1), ((3,), 1, 1)]
+        return "E", [((2,), 0, 1), ((3,), 0, 1)]
+    if shape in ("var-call", "var-meth"):
+        return (("int", val(1) + 7) if ok else "E"), [((1,), 1, 1)]
+    if shape in ("macro-var-call", "macro-var-meth"):
+        if ok:
+            return ("list", (("int", val(1)), ("int", val(2)))), [((1,), 1, 1), ((2,), 1, 1)]
+        return "E", [((1,), 0, 1), ((2,), 0, 1)]
     if shape == "or-false":
         # int || false: the property is silent for a non-boolean next to false; an error next to false is an error
         return (None if ok else "E"), [((1,), 1, 1)]
     raise ValueError(shape)
 
 
-def bindings():
+def bindings(shape=None):
     import celpy.celtypes as ct
-    return {"a": ct.IntType(1), "b": ct.IntType(2), "c": ct.IntType(3), "t": ct.BoolType(True)}
+    b = {"a": ct.IntType(1), "b": ct.IntType(2), "c": ct.IntType(3), "t": ct.BoolType(True)}
+    b.update({k: ct.IntType(v) for k, v in EXTRA_BINDINGS.get(shape, {}).items()})
+    return b
 
 
 def check_log(log, spec):
@@ -177,7 +200,7 @@ def shard(task):
         functions = {"f": fn} if style == "dict" else [fn]
         del LOG[:]
         prog = celrun.Prog(rk, text, functions=functions)
-        o = prog.eval(bindings())
+        o = prog.eval(bindings(shape))
         log = list(LOG)
         exp_o, exp_log = expected(shape, beh)
         n += 1
@@ -252,7 +275,7 @@ def run(ctx):
     for rk in ("I", "C"):
         ctx.run_shards(shard, [rk])
     ctx.part.sample({"shapes": [s for s, _ in SHAPES], "styles": STYLES, "callable_kinds": KINDS, "behaviours": BEHAVIOURS})
-    ctx.rule = ("every call shape (0-3 arguments, function and method form, nested, in +, in map, beside || / &&, in ?:) x supplying style (dict, list) x callable kind (module-level def, def in __main__, closure, lambda, "
+    ctx.rule = ("every call shape (0-3 arguments, function and method form, nested, in +, in map, beside || / &&, in ?:, in the range of each macro, beside a variable or macro variable of the same name) x supplying style (dict, list) x callable kind (module-level def, def in __main__, closure, lambda, "
                 "callable object, functools.partial, bound method) x behaviour (value, returned CELEvalError, raised ValueError, raised TypeError) x runner; plus built-in override scope in every program order and unbound names; "
                 "a case is one program evaluation whose outcome AND call log are compared; `int || false` is counted, not compared")
     ctx.assumptions = ["arguments are small ints; evaluation order between sibling call sites is not asserted (counts only)"]
@@ -267,7 +290,7 @@ def replay(w):
     fn = make_callable(wit["kind"])
     functions = {"f": fn} if wit["style"] == "dict" else [fn]
     del LOG[:]
-    o = celrun.Prog(wit["runner"], wit["expr"], functions=functions).eval(bindings())
+    o = celrun.Prog(wit["runner"], wit["expr"], functions=functions).eval(bindings(wit["shape"]))
     exp_o, exp_log = expected(wit["shape"], wit["behaviour"])
     got = "E" if o[0] == "E" else ((o[1], o[2]) if o[0] == "V" else ("X",) + tuple(o[1:]))
     print(wit["expr"], wit["style"], wit["kind"], wit["behaviour"], "->", outcome.short(o), "expected", exp_o, "log", LOG)
